@@ -8,11 +8,13 @@ PROP == IF "PROP" \in DOMAIN IOEnv THEN IOEnv.PROP ELSE "all"
 Chk(p) == PROP = "all" \/ PROP = p
 GS == {TLog[i].g : i \in {j \in 1..NL : "g" \in DOMAIN TLog[j]}}
 
-VARIABLES l, pend, ctxc, cdone   \* ctxc: context ids whose cancellation is announced (100 = the Channel's own parent); cdone: completed
-tvars == <<vars, l, pend, ctxc, cdone>>
+VARIABLES l, pend, ctxc, cdone,  \* ctxc: context ids whose cancellation is announced (100 = the Channel's own parent); cdone: completed
+  cs   \* the Get that was inside its critical section - past its check of the Channel's context, before its receive from
+       \* the source - at the instant the PARENT context was cancelled ("" if none): see LinLateTake
+tvars == <<vars, l, pend, ctxc, cdone, cs>>
 Idle == [st |-> "idle", line |-> 0, pre |-> FALSE]
 
-TVInit == Init /\ l = 1 /\ pend = [g \in GS |-> Idle] /\ ctxc = {} /\ cdone = {} /\ TLCSet(1, 0)
+TVInit == Init /\ l = 1 /\ pend = [g \in GS |-> Idle] /\ ctxc = {} /\ cdone = {} /\ cs = "" /\ TLCSet(1, 0)
 
 Cur == TLog[l]
 IsEv(e) == l <= NL /\ Cur.ev = e
@@ -31,34 +33,34 @@ TReset ==
   /\ src' = <<>> /\ srcClosed' = FALSE /\ buf' = <<>> /\ rb' = 0
   /\ cancelled' = FALSE /\ once' = FALSE /\ closer' = "" /\ done' = FALSE
   /\ taken' = <<>> /\ commits' = <<>>
-  /\ pend' = [g \in GS |-> Idle] /\ ctxc' = {} /\ cdone' = {}
+  /\ pend' = [g \in GS |-> Idle] /\ ctxc' = {} /\ cdone' = {} /\ cs' = ""
 
 TCall ==
   /\ IsEv("call") /\ Consume
   /\ pend[Cur.g].st = "idle"
   /\ pend' = [pend EXCEPT ![Cur.g] = [st |-> "called", line |-> l, pre |-> ("ctx" \in DOMAIN Cur /\ Cur.ctx \in cdone)]]
-  /\ UNCHANGED <<vars, ctxc, cdone>>
+  /\ UNCHANGED <<vars, ctxc, cdone, cs>>
 
 TRet ==
   /\ IsEv("ret") /\ Consume
   /\ pend[Cur.g].st = "done" /\ CallOf(Cur.g).ret = l
   /\ pend' = [pend EXCEPT ![Cur.g] = Idle]
-  /\ UNCHANGED <<vars, ctxc, cdone>>
+  /\ UNCHANGED <<vars, ctxc, cdone, cs>>
 
 TCancel ==
   /\ IsEv("cancel") /\ Consume
   /\ ctxc' = ctxc \cup {Cur.ctx}
   \* (the cancellation of the Channel's own parent context (100) takes effect somewhere between this line and the
   \*  matching "cancelled" line: a silent step, see TSilent)
-  /\ UNCHANGED <<vars, pend, cdone>>
+  /\ UNCHANGED <<vars, pend, cdone, cs>>
 
 TCancelled ==
   /\ IsEv("cancelled") /\ Consume /\ cdone' = cdone \cup {Cur.ctx}
   /\ Cur.ctx = 100 => cancelled          \* by now the parent's cancellation has taken effect
-  /\ UNCHANGED <<vars, pend, ctxc>>
+  /\ UNCHANGED <<vars, pend, ctxc, cs>>
 
-TSrc == IsEv("src") /\ Consume /\ SrcSend(Cur.v) /\ UNCHANGED <<pend, ctxc, cdone>>
-TSrcClose == IsEv("srcclose") /\ Consume /\ SrcClose /\ UNCHANGED <<pend, ctxc, cdone>>
+TSrc == IsEv("src") /\ Consume /\ SrcSend(Cur.v) /\ UNCHANGED <<pend, ctxc, cdone, cs>>
+TSrcClose == IsEv("srcclose") /\ Consume /\ SrcClose /\ UNCHANGED <<pend, ctxc, cdone, cs>>
 
 CanProgress(g) ==
   LET p == pend[g] e == TLog[p.line] IN
@@ -76,13 +78,15 @@ TQuiescent ==
   /\ Cur.exact => /\ \A g \in GS : pend[g].st # "idle" => ~CanProgress(g)
                   /\ ~(once /\ ~done) /\ ~(cancelled /\ ~once)
   /\ (Cur.exact \/ Cur.pending = <<>>) => (Cur.buflen = Len(buf) /\ Cur.rb = rb)
-  /\ UNCHANGED <<vars, pend, ctxc, cdone>>
+  /\ cs = ""
+  /\ UNCHANGED <<vars, pend, ctxc, cdone, cs>>
 
 TFinal ==
   /\ IsEv("final") /\ Consume
   /\ Cur.rest = src                     \* what is left in the source channel is exactly what was never taken
   /\ Chk("close") => (Cur.leaked = 0 /\ Cur.returned)
-  /\ UNCHANGED <<vars, pend, ctxc, cdone>>
+  /\ cs = ""
+  /\ UNCHANGED <<vars, pend, ctxc, cdone, cs>>
 
 \* (cancelling the Channel's own parent context (id 100) is a state change that disables actions: steps may precede it)
 SilentOK == l <= NL /\ Cur.ev \notin {"call", "reset", "src", "srcclose"} /\ ~(Cur.ev \in {"cancel", "cancelled"} /\ Cur.ctx # 100)
@@ -117,12 +121,32 @@ LinCloseAgain(g) ==
   /\ pend[g].st = "called" /\ CallOf(g).op = "Close"
   /\ MatchR(g, "once") /\ DoneClosed(g) /\ CloseAgain("once") /\ SetPend(g, "done")
 
+\* Deviation from ChannelL1, where every call is atomic: Get checks the Channel's context and then receives from the source
+\* inside one critical section, which excludes every other call and the close of Done() (Close takes the mutex) - but not
+\* the cancellation of the PARENT context, which needs no lock. A Get that had passed its check when the parent was
+\* cancelled still takes what it finds in the source (even a value sent after the cancellation); until it has left its
+\* critical section no other call takes effect and Done() is not closed. (C13 says "once Done is closed nothing more is
+\* taken": that still holds.)
+LateGets == {g \in GS : pend[g].st = "called" /\ CallOf(g).op = "Get" /\ Cx(g) # "pre" /\ rb = 0}
+LinLateTake(g) ==
+  /\ cs = g /\ pend[g].st = "called" /\ CallOf(g).op = "Get" /\ src # <<>> /\ MatchR(g, "ok") /\ (HasRet(g) => RetOf(g).v = Head(src))
+  /\ src' = Tail(src) /\ buf' = Append(buf, Head(src)) /\ taken' = Append(taken, Head(src))
+  /\ UNCHANGED <<srcClosed, rb, cancelled, once, closer, done, commits>>
+  /\ cs' = "" /\ SetPend(g, "done")
+LinLateMiss(g) == cs = g /\ pend[g].st = "called" /\ src = <<>> /\ cs' = "" /\ UNCHANGED <<vars, pend>>
+\* (a Get whose own context is cancelled returns at its guard, before it asks for the mutex: possible at any time)
+LinGetNoLock(g) ==
+  /\ g # cs /\ pend[g].st = "called" /\ CallOf(g).op = "Get" /\ Cx(g) # "live" /\ MatchR(g, "canceled")
+  /\ cs' = cs /\ UNCHANGED vars /\ SetPend(g, "done")
+
 TSilent ==
   /\ SilentOK /\ l' = l
-  /\ \/ \E g \in GS : pend[g].st \in {"called", "held"} /\
-          (LinGet(g) \/ LinCommit(g) \/ LinRollback(g) \/ LinBuffer(g) \/ LinCloseBegin(g) \/ LinCloseOk(g) \/ LinCloseAgain(g))
-     \/ (UNCHANGED pend /\ (CloseBegin("sys") \/ CloseFinish))
-     \/ (UNCHANGED pend /\ 100 \in ctxc /\ ~cancelled /\ ParentCancel)
+  /\ \/ /\ cs = "" /\ cs' = ""
+        /\ \E g \in GS : pend[g].st \in {"called", "held"} /\
+             (LinGet(g) \/ LinCommit(g) \/ LinRollback(g) \/ LinBuffer(g) \/ LinCloseBegin(g) \/ LinCloseOk(g) \/ LinCloseAgain(g))
+     \/ (UNCHANGED pend /\ cs = "" /\ cs' = "" /\ (CloseBegin("sys") \/ CloseFinish))
+     \/ (UNCHANGED pend /\ 100 \in ctxc /\ ~cancelled /\ ParentCancel /\ cs = "" /\ cs' \in {""} \cup LateGets)
+     \/ \E g \in GS : LinLateTake(g) \/ LinLateMiss(g) \/ (cs # "" /\ LinGetNoLock(g))
   /\ UNCHANGED <<ctxc, cdone>>
 
 TVNext == TSilent \/ TReset \/ TCall \/ TRet \/ TCancel \/ TCancelled \/ TSrc \/ TSrcClose \/ TQuiescent \/ TFinal
